@@ -1,8 +1,8 @@
 (* C04 - novel transcripts are evidence-backed, correctly labelled and non-redundant.
    Property theorems only; the model (abstract transition system of IntronCollector / IntronGraph, path threading, the decision
    sequence of construct_fl_isoforms, the model store) is in Graph.v, the proofs in GraphProofs.v. *)
-From Coq Require Import ZArith List Bool Lia.
-From IQ Require Import Exons Graph GraphProofs.
+From Coq Require Import ZArith List Bool Lia Sorting.Permutation.
+From IQ Require Import Exons Graph GraphProofs GraphCluster.
 Import ListNotations. Open Scope Z_scope.
 
 (* --- the graph: for ALL operation sequences (any interleaving of clustering, edge insertion, collapsing, discarding, simplification)
@@ -43,6 +43,57 @@ Theorem C04_threaded_path_in_vertices : forall reads ops s r p, run (init reads)
   In r (collected reads) -> thread s r = Some p -> forall v, In v p -> In v (vert s).
 Proof. exact threaded_path_in_vertices. Qed.
 Print Assumptions C04_threaded_path_in_vertices.
+
+(* --- collect_introns / cluster_introns as an executable function of the multiset of collected introns (GraphCluster.v) *)
+(* by construction: for EVERY set of collected introns with counts, annotated set, delta and min_count, the operations that cluster_introns
+   performs are accepted by the abstract system (so all 13 clauses of the invariant hold afterwards) and classify every collected intron *)
+Theorem C04_cluster_is_run : forall known delta mnc all reads, NoDup (map fst all) -> (forall x, In x (read_introns reads) <-> In x (map fst all)) ->
+  exists s, run (init reads) (snd (cluster known delta mnc all)) = Some s /\ pend s = [] /\
+            vert s = rev (map fst (cs_vert (fst (cluster known delta mnc all)))) /\ smap s = cs_map (fst (cluster known delta mnc all)) /\
+            disc s = rev (cs_disc (fst (cluster known delta mnc all))).
+Proof. exact cluster_is_run. Qed.
+Print Assumptions C04_cluster_is_run.
+Theorem C04_cluster_of_reads_is_run : forall known delta mnc reads,
+  exists s, run (init reads) (snd (cluster known delta mnc (collect_counts reads))) = Some s /\ pend s = [].
+Proof. exact cluster_of_reads_is_run. Qed.
+Print Assumptions C04_cluster_of_reads_is_run.
+(* the substitute of an intron is a collected intron within delta at both ends, with at least the count of the intron it replaces, and a vertex
+   of the result; annotated introns are never substituted (cluster_introns has no ratio threshold: the count order is the only condition) *)
+Theorem C04_cluster_substitute_spec : forall known delta mnc all i s,
+  In (i, s) (cs_map (fst (cluster known delta mnc all))) ->
+  similar delta i s = true /\ ~ In i known /\ In s (map fst (cs_vert (fst (cluster known delta mnc all)))) /\
+  exists ci cs, In (i, ci) all /\ In (s, cs) all /\ ci <= cs.
+Proof. exact cluster_substitute_spec. Qed.
+Print Assumptions C04_cluster_substitute_spec.
+Theorem C04_cluster_discard_spec : forall known delta mnc all i, In i (cs_disc (fst (cluster known delta mnc all))) ->
+  exists c, In (i, c) all /\ c < mnc /\ has_similar delta all i = false /\ ~ In i known.
+Proof. exact cluster_discard_spec. Qed.
+Print Assumptions C04_cluster_discard_spec.
+(* substitution chains are already resolved after clustering: a substitute is never a key, [resolve] is the identity on substitutes *)
+Theorem C04_cluster_map_fixpoint : forall known delta mnc all i s, NoDup (map fst all) ->
+  In (i, s) (cs_map (fst (cluster known delta mnc all))) ->
+  ~ In s (keys (cs_map (fst (cluster known delta mnc all)))) /\ resolve (cs_map (fst (cluster known delta mnc all))) s = s.
+Proof. exact cluster_map_fixpoint. Qed.
+Print Assumptions C04_cluster_map_fixpoint.
+(* neither dict insertion order nor the order of the reads matters (a C06-relevant fact: cluster_introns sorts before it decides) *)
+Theorem C04_cluster_perm_invariant : forall known delta mnc all all', Permutation all all' -> cluster known delta mnc all = cluster known delta mnc all'.
+Proof. exact cluster_perm_invariant. Qed.
+Print Assumptions C04_cluster_perm_invariant.
+Theorem C04_cluster_read_order_irrelevant : forall known delta mnc reads reads', Permutation reads reads' ->
+  cluster known delta mnc (collect_counts reads) = cluster known delta mnc (collect_counts reads').
+Proof. exact cluster_read_order_irrelevant. Qed.
+Print Assumptions C04_cluster_read_order_irrelevant.
+(* "clustering is idempotent" is FALSE of the faithful model (accumulated counts reorder the processing): witness, confirmed on the real collector
+   by the `cluster` correspondence, which contains both inputs *)
+Theorem C04_cluster_idempotent_refuted : ~ (forall known delta mnc all, cs_map (fst (cluster known delta mnc (cs_vert (fst (cluster known delta mnc all))))) = []).
+Proof. intros H. specialize (H [(11, 30)] 1 1 idem_all). vm_compute in H. discriminate. Qed.
+Print Assumptions C04_cluster_idempotent_refuted.
+(* a non-trivial instance: a tie on the count is broken towards the larger intron, the substitute is the LARGEST similar vertex, the count-1 intron (103,201) is kept
+   as a substitution because it has a similar intron while (300,400) x2 is below min_count 3 and alone: discarded *)
+Example ex_cluster : cluster [] 2 3 [((100, 200), 4); ((101, 200), 4); ((103, 201), 1); ((300, 400), 2); ((102, 202), 4)] =
+  (mkCS [((102, 202), 13)] [((101, 200), (102, 202)); ((100, 200), (102, 202)); ((103, 201), (102, 202))] [(300, 400)],
+   [AddVertex (102, 202); ClusterSubst (101, 200) (102, 202); ClusterSubst (100, 200) (102, 202); ClusterDiscard (300, 400); ClusterSubst (103, 201) (102, 202)]).
+Proof. vm_compute. reflexivity. Qed.
 
 (* --- construct_fl_isoforms *)
 (* known-chain suppression: a model emitted as novel from the threaded path of a read never has the intron chain of a reference
